@@ -70,6 +70,8 @@ impl<T: FileStore> RecvTransaction<T> {
         &&& self.nak_received_file_size == o.nak_received_file_size
         &&& self.nak_procedure == o.nak_procedure
         &&& self.delayed_nack_timers == o.delayed_nack_timers
+        &&& self.filestore_response == o.filestore_response
+        &&& self.delivery_code == o.delivery_code && self.file_status == o.file_status
     }
 
     pub open spec fn same_except_finished(&self, o: Self) -> bool {
@@ -94,6 +96,16 @@ pub open spec fn indication_progress_ok(i: Indication, progress: u64) -> bool {
         Indication::Fault(f) => f.progress == progress,
         Indication::Abandon(f) => f.progress == progress,
         Indication::Resumed(r) => r.progress == progress,
+        _ => true,
+    }
+}
+
+/// C18 / C13: a Finished indication carries the outcome and the filestore responses the transaction holds
+pub open spec fn indication_outcome_ok(i: Indication, condition: Condition, delivery_code: DeliveryCode, file_status: FileStatusCode, responses: Seq<FileStoreResponse>) -> bool {
+    match i {
+        Indication::Finished(f) => f.delivery_code == delivery_code && f.file_status == file_status && f.report.condition == condition
+            // (the cancel path reports an empty list; no indication ever carries responses other than the recorded ones)
+            && (f.filestore_responses@ == responses || f.filestore_responses@.len() == 0),
         _ => true,
     }
 }
@@ -289,4 +301,66 @@ pub fn usize_min(a: usize, b: usize) -> (r: usize)
     ensures r == (if a <= b { a } else { b }),
 {
     unimplemented!()
+}
+
+
+// ---- filestore requests (C13): vocabulary over the opaque request / response types
+/// `resp` is the result of executing `req` on the filestore (produced only by FileStore::process_request)
+pub uninterp spec fn executed(resp: FileStoreResponse, req: FileStoreRequest) -> bool;
+/// the response reports a failure (FileStoreStatus::is_fail)
+pub uninterp spec fn failed(resp: FileStoreResponse) -> bool;
+/// the "not performed" response for a request (FileStoreResponse::not_performed)
+pub uninterp spec fn not_performed_of(req: FileStoreRequest) -> FileStoreResponse;
+
+#[verifier::external_body]
+pub fn vx_process_request<T: FileStore>(fs: &Arc<T>, req: &FileStoreRequest) -> (r: FileStoreResponse)
+    ensures executed(r, *req),
+{ unimplemented!() }
+
+#[verifier::external_body]
+pub fn vx_is_fail(rep: &FileStoreResponse) -> (r: bool)
+    ensures r == failed(*rep),
+{ unimplemented!() }
+
+#[verifier::external_body]
+pub fn vx_not_performed(req: &FileStoreRequest) -> (r: FileStoreResponse)
+    ensures r == not_performed_of(*req),
+{ unimplemented!() }
+
+#[verifier::external_body]
+pub fn vx_no_checksum() -> TransactionError { unimplemented!() }
+
+pub open spec fn requests_of_meta(m: Option<Metadata>) -> Seq<FileStoreRequest> {
+    match m { Some(meta) => meta.filestore_requests@, None => Seq::empty() }
+}
+
+/// a failure has been reported among the first j responses (the code's `fail_rest` flag before request j)
+pub open spec fn failing_before(out: Seq<FileStoreResponse>, j: int) -> bool
+    decreases j,
+{
+    if j <= 0 { false } else if failing_before(out, j - 1) { true } else { failed(out[j - 1]) }
+}
+
+/// the first n responses answer the first n requests in order: each one is the result of executing its request as long as no earlier
+/// response reported a failure, and the not-performed response for its request after the first failure
+pub open spec fn answered_prefix(out: Seq<FileStoreResponse>, reqs: Seq<FileStoreRequest>, n: int, failing: bool) -> bool {
+    &&& 0 <= n <= reqs.len() && n <= out.len()
+    &&& (forall|j: int| 0 <= j < n ==> (if failing_before(out, j) { #[trigger] out[j] == not_performed_of(reqs[j]) } else { executed(out[j], reqs[j]) }))
+    &&& failing == failing_before(out, n)
+}
+
+pub open spec fn requests_answered(out: Seq<FileStoreResponse>, reqs: Seq<FileStoreRequest>) -> bool {
+    out.len() == reqs.len() && answered_prefix(out, reqs, reqs.len() as int, failing_before(out, reqs.len() as int))
+}
+
+/// appending a response does not change the flag for the earlier positions
+pub proof fn lemma_failing_before_push(out: Seq<FileStoreResponse>, x: FileStoreResponse, j: int)
+    requires 0 <= j <= out.len(),
+    ensures failing_before(out.push(x), j) == failing_before(out, j),
+    decreases j,
+{
+    if j > 0 {
+        lemma_failing_before_push(out, x, j - 1);
+        assert(out.push(x)[j - 1] == out[j - 1]);
+    }
 }
